@@ -51,6 +51,8 @@ var glTargets = []glTarget{
 	{pkg: "service", recv: "ReplayCache", name: "Resize"},
 	{pkg: "service", recv: "natconn", name: "onWrite", opaque: map[string]bool{"isDNS": true}},
 	{pkg: "service", recv: "natconn", name: "onRead", opaque: map[string]bool{"isDNS": true}},
+	{pkg: "service", recv: "natconn", name: "WriteTo", opaque: map[string]bool{"isDNS": true}},
+	{pkg: "service", recv: "natconn", name: "ReadFrom", opaque: map[string]bool{"isDNS": true}},
 	{pkg: "net", recv: "", name: "IsPrivateAddress"},
 	{pkg: "net", recv: "", name: "RequirePublicIP"},
 	{pkg: "ipinfo", recv: "", name: "GetIPInfoFromIP"},
